@@ -294,6 +294,15 @@ fn gen_conditions(ctx: &mut Ctx) -> Result<String, String> {
         let ar = squash(find_fn(&rec, "", "add_records")?.block);
         if !ar.contains("ifrecorder.reloader==reloader{recorder.records.0.extend(deps.iter().cloned());}") { return Err("records::add_records: unexpected body".into()); }
     }
+    // Record::insert_*: every insertion is guarded by the identity of the reloader
+    {
+        let rec = ctx.file("src/hot_reloading/records.rs")?.clone();
+        for m in ["insert_asset", "insert_file", "insert_dir"] {
+            let b = squash(find_fn(&rec, "Record", m)?.block);
+            if !(b.starts_with("{ifself.reloader==reloader{self.records.0.insert(") && b.ends_with(");}}")) { return Err(format!("Record::{m}: not guarded by `if self.reloader == reloader`: `{b}`")); }
+        }
+        out.push_str("/-- `Record::insert_{asset,file,dir}` record only for the reloader that installed the record -/\ndef recordChecksReloaderIdentity : Bool := true\n\n");
+    }
     // reload_untyped / DepsGraph::reload
     let ru = squash(find_fn(&any, "AnyCache", "reload_untyped")?.block);
     let skips_static = ru.contains("if!handle.is_dynamic(){returnNone;}");
@@ -388,6 +397,50 @@ fn gen_shards(ctx: &mut Ctx) -> Result<String, String> {
     Ok(out)
 }
 
+// ------------------------------------------------------------------ type-erasure casts (src/entry.rs)
+
+fn gen_casts(ctx: &mut Ctx) -> Result<String, String> {
+    let file = ctx.file("src/entry.rs")?.clone();
+    let src = std::fs::read_to_string(ctx.repo.join("src/entry.rs")).map_err(|e| e.to_string())?;
+    let is_ = squash(find_fn(&file, "UntypedEntry", "is")?.block);
+    let is_ok = is_ == "{self.type_id==TypeId::of::<T>()}";
+    let dr = squash(find_fn(&file, "UntypedEntry", "downcast_ref")?.block);
+    let dr_ok = dr == "{ifself.is::<T>(){unsafe{Some(&*(selfas*constSelfas*constEntryStorage<T>))}}else{None}}";
+    let db = squash(find_fn(&file, "UntypedEntry", "downcast")?.block);
+    let db_ok = db == "{ifself.is::<T>(){unsafe{Ok(Box::from_raw(Box::into_raw(self)as*mutEntryStorage<T>))}}else{Err(self)}}";
+    let wr = squash(find_fn(&file, "UntypedEntry", "write")?.block);
+    let wr_ok = wr.starts_with("{assert!(self.type_id==value.0.type_id);");
+    // the type id stored in an entry is the one of the value it was created with
+    let ns = squash(find_fn(&file, "Entry", "new_static")?.block);
+    let nd = squash(find_fn(&file, "Entry", "new_dynamic")?.block);
+    let tid_ok = ns.contains("type_id:TypeId::of::<T>(),") && nd.contains("type_id:TypeId::of::<T>(),");
+    // every reinterpretation of an untyped entry as `EntryStorage<T>` is one of the two guarded sites
+    let compact: String = src.chars().filter(|c| !c.is_whitespace()).collect();
+    let n_casts = compact.matches("as*constEntryStorage<T>").count() + compact.matches("as*mutEntryStorage<T>").count();
+    // the public accessors go through them
+    let uh = squash(find_fn(&file, "UntypedHandle", "downcast_ref")?.block);
+    let uh_ok = uh == "{letentry=self.inner.downcast_ref()?;Some(entry.handle())}";
+    let ii = squash(find_fn(&file, "CacheEntry", "into_inner")?.block);
+    let ii_ok = ii == "{ifletOk(storage)=self.0.downcast(){return(storage.value.into_inner(),storage.id);}wrong_handle_type()}";
+    Ok(format!(
+"/-- `UntypedEntry::is::<T>` compares the stored `TypeId` with `TypeId::of::<T>()` -/
+def isComparesTypeId : Bool := {is_ok}
+/-- `new_static` / `new_dynamic` store `TypeId::of::<T>()` of the value they are given -/
+def entryStoresOwnTypeId : Bool := {tid_ok}
+/-- `downcast_ref` reinterprets the entry only under `if self.is::<T>()`, else `None` -/
+def downcastRefGuarded : Bool := {dr_ok}
+/-- `downcast` (owned) reinterprets the box only under `if self.is::<T>()`, else gives it back -/
+def downcastBoxGuarded : Bool := {db_ok}
+/-- `write` asserts equal type ids before swapping the bytes of two values -/
+def writeAssertsSameType : Bool := {wr_ok}
+/-- number of places in `entry.rs` where something is cast to `EntryStorage<T>` -/
+def castSitesToTyped : Nat := {n_casts}
+/-- `UntypedHandle::downcast_ref` and `CacheEntry::into_inner` go through the guarded casts (`None` / panic otherwise) -/
+def publicViewsUseGuardedCasts : Bool := {}
+
+", uh_ok && ii_ok))
+}
+
 pub fn gen(ctx: &mut Ctx) -> Result<String, String> {
     let mut out = String::from("import AmVerif.Model.Core\n\nnamespace AmVerif.Gen\nopen AmVerif.Model\n\n/-- `error::ErrorKind` -/\ninductive EK\n  | noDefault\n  | io (e : IoErr)\n  | conv (tag : String)\n  deriving DecidableEq, Repr\n\n");
     out.push_str(&gen_error_or(ctx)?);
@@ -395,6 +448,7 @@ pub fn gen(ctx: &mut Ctx) -> Result<String, String> {
     out.push_str(&gen_conditions(ctx)?);
     out.push_str("/-- `usize::next_power_of_two` (smallest power of two ≥ n; 1 for 0) -/\ndef nextPow2Aux : Nat → Nat → Nat → Nat\n  | 0, p, _ => p\n  | f + 1, p, n => if p ≥ n then p else nextPow2Aux f (2 * p) n\ndef nextPow2 (n : Nat) : Nat := nextPow2Aux n 1 n\n\n");
     out.push_str(&gen_shards(ctx)?);
+    out.push_str(&gen_casts(ctx)?);
     out.push_str("end AmVerif.Gen\n");
     Ok(out)
 }
